@@ -130,6 +130,11 @@ Proof.
            ++ apply mapp_ret in H. destruct H as (e2 & H & ->).
               eapply refines_trans; [exact R12|]. eapply IH; eauto.
            ++ inversion H; subst. exact R12.
+        -- (* KBits *)
+           destruct (negb (length b1 =? 0) || (length (m_buf s) + length got =? target_of HS rl short s)).
+           ++ apply mapp_ret in H. destruct H as (e2 & H & ->).
+              eapply refines_trans; [exact R1|]. eapply IH; eauto.
+           ++ inversion H; subst. exact R1.
       * (* RClosed *)
         destruct (negb (length b1 =? 0) || (length (m_buf s) + length got =? target_of HS rl short s)).
         -- apply mapp_ret in H. destruct H as (e2 & H & ->).
@@ -281,6 +286,7 @@ Proof.
            rewrite F2.
            pose proof (good_of_feed _ _ _ _ _ _ _ (S (S (m_cnt s))) F2) as G2.
            apply REC; [exact G2|]. rewrite skipn_length. lia.
+        -- apply REC; [exact G1|lia].
       * apply REC; [exact G1|lia].
   - pose proof (good_pay_pos s k lft G M) as LP.
     set (want := Nat.min (N.to_nat lft) (cap budget (m_cnt s))).
